@@ -592,6 +592,7 @@ def C20(rep, prog, tier):
     _run(rep, preocf.format_agree, ex)
     _run(rep, preocf.memo_audit, ex, "STATE.pickled")
     _run(rep, preocf.load_rebuild, ex)
+    _run(rep, preocf.save_no_mutation, ex)
 
 
 def C10(rep, prog, tier):
